@@ -629,8 +629,17 @@ main (int argc, char **argv)
 		  verdict = "INPUT-MODIFIED " + std::to_string (k);
 	      // the same text compiled again behaves the same
 	      for (size_t k = 0; k < ins.size () && verdict.empty (); ++k)
-		if (fresh (*ins[k], q) != ref[k])
-		  verdict = "RECOMPILE-DIFFERS input " + std::to_string (k);
+		{
+		  auto again = fresh (*ins[k], q);
+		  if (again != ref[k])
+		    {
+		      size_t j = 0;
+		      while (j < again.size () && j < ref[k].size () && again[j] == ref[k][j])
+			++j;
+		      verdict = "RECOMPILE-DIFFERS input " + std::to_string (k) + " pull " + std::to_string (j) + " got "
+			+ (j < again.size () ? again[j] : std::string ("-")) + " want " + (j < ref[k].size () ? ref[k][j] : std::string ("-"));
+		    }
+		}
 	      if (verdict.empty ())
 		std::cout << "H ok pulls=" << pulls << " inputs=" << ins.size () << "\n";
 	      else
